@@ -112,13 +112,24 @@ static void note_notify_child (nsync_note n, nsync_note parent) {
 	}
 }
 
+/* Return whether no thread is disconnecting *n.  Assumes n->note_mu held. */
+static int not_disconnecting (const void *v) {
+	return (((nsync_note)v)->disconnecting == 0);
+}
+
 /* Notify *n and all its descendants that are not already disconnnecting.
    No locks are held. */
 static void notify (nsync_note n) {
 	nsync_time t;
 	nsync_mu_lock (&n->note_mu);
 	t = NOTIFIED_TIME (n);
-	if (nsync_time_cmp (t, nsync_time_zero) > 0) {
+	if (nsync_time_cmp (t, nsync_time_zero) > 0 && n->disconnecting != 0) {
+		/* Another thread is already notifying *n, and may have released
+		   n->note_mu to acquire n->parent->note_mu.  Only that thread may
+		   rely on n->parent staying valid, so wait for it to finish
+		   rather than disconnecting *n a second time.  */
+		nsync_mu_wait (&n->note_mu, &not_disconnecting, n, NULL);
+	} else if (nsync_time_cmp (t, nsync_time_zero) > 0) {
 		nsync_note parent;
 		n->disconnecting++;
 		parent = n->parent;
